@@ -240,15 +240,19 @@ PROPS = {
         bounded=[dict(family="c11", what="every sub-datum reachable through list_iter / vector_iter: inside its parent, after its predecessor, covered text re-parses to its value, "
                                          "quote heads cover the shorthand, identical spans from str / slice / reader",
                       bound="33 texts (multi-line, non-ASCII, nested, dotted, quoted) x 2 option sets x 3 sources + reader failing at 4 offsets")],
-        explanation="PROVED (Verus, unbounded): Read::position of all three sources (SliceRead::position_of_index loop, StrRead delegation, IoRead over "
+        explanation="PROVED (Verus, unbounded): (positions) Read::position of all three sources (SliceRead::position_of_index loop, StrRead delegation, IoRead over "
                     "LineColIterator's counters and the position remembered in front of a peeked byte) equals pos_line/pos_col of the bytes CONSUMED so far, for every "
-                    "input and every peek/next/discard history - so the three sources report identical positions; next_datum/expect_datum return a datum whose own "
+                    "input and every peek/next/discard history - so the three sources report identical positions; (own span) next_datum/expect_datum return a datum whose "
                     "span is [pos(input[..a]), pos(input[..b])) with a = offset of the first byte after leading trivia, b = offset reached on return, a < b <= len "
-                    "(inside the input, non-empty, starts at the datum not at the whitespace); Datum::quotation gives the head the span handed in and the whole form "
-                    "start-of-shorthand..end-of-quoted-datum. NOT PROVED: nesting / sibling ordering of child spans inside lists, and that the covered text re-parses to "
-                    "the sub-datum (needs a functional specification of the reader): BOUNDED stand-in run on every check (coverage.bounded).",
+                    "(inside the input, non-empty, starts at the datum not at the whitespace); (tree) nest_ok(value, info) for every datum next_datum returns: every "
+                    "vector element and every element along a list's spine (incl. a dotted tail, and a tail that is itself a list) is recursively well nested, has a "
+                    "non-empty span, lies inside its parent's span and starts at or after the end of its predecessor (no overlap) - positions ordered lexicographically, "
+                    "derived from offset order by lemma_pos_mono; proved through parse_vector_meta's loop (ghost offsets) and parse_list_meta's two &mut cursors (prophecy "
+                    "invariants on spine_nest / spine_last_end), lemma_spine_within turns the ordered chain into containment of EVERY element; (quotes) Datum::quotation: "
+                    "head span = the span handed in (start..end of the shorthand token), quoted datum after it, whole form start-of-shorthand..end-of-quoted-datum. "
+                    "NOT PROVED: that the covered text re-parses to the sub-datum (needs a functional specification of the reader): BOUNDED stand-in on every check.",
         assumptions=["the stream model ByteIter (see C06) for IoRead; fewer than usize::MAX bytes"],
-        not_covered=["child-span containment/ordering and re-parse of covered text (bounded stand-in only)"],
+        not_covered=["re-parse of the covered text to the sub-datum's value (bounded stand-in only)"],
         trusted=STD_TRUST,
     ),
     "C12": dict(
